@@ -65,3 +65,35 @@ package ice
 //@ func (*tcpPacketConn).readFromContext
 //@   props C14
 //@   ensures never-reports-more-than-it-delivered: err == nil ==> result0 <= len(b)
+
+// The buffered write path forwards only whole frames: what it hands to the TCP
+// connection is exactly what one error-free read of the packet buffer returned.
+//@ func (*bufferedConn).writeProcess
+//@   props C14
+//@   ghostvar readOK bool = false
+//@   ghostvar got int = 0
+//@   site call Read#1 ghost readOK := result1 == nil
+//@   site call Read#1 ghost got := result0
+//@   site call Write#1 assert forwards-only-a-completely-read-frame: readOK && arg0.base == pktBuf.base && arg0.off == pktBuf.off && len(arg0) == got
+
+// Active TCP candidates use the same framing: the reader stops at the first
+// framing error (an oversized frame is never skipped: its payload would be parsed as
+// headers) and delivers exactly the framed bytes; the writer frames exactly what it
+// took from the write buffer.
+//@ func newActiveTCPConn$1$2
+//@   props C14
+//@   requires conn != nil
+//@   ghostvar failed bool = false
+//@   loop 1 invariant no-read-after-error: !failed
+//@   site call readStreamingPacket#1 assert reads-this-connection-into-the-full-buffer: arg0 == conn && arg1 == buff && len(buff) == receiveMTU
+//@   site call readStreamingPacket#1 ghost failed := result1 != nil
+//@   site call Write#1 assert delivers-exactly-the-framed-bytes: !failed && arg1.base == buff.base && arg1.off == buff.off && len(arg1) == n
+
+//@ func newActiveTCPConn$1
+//@   props C14
+//@   opt nosafety
+//@   ghostvar got int = 0
+//@   ghostvar readOK bool = false
+//@   site call Read#1 ghost got := result0
+//@   site call Read#1 ghost readOK := result1 == nil
+//@   site call writeStreamingPacket#1 assert frames-exactly-what-was-taken-from-the-write-buffer: readOK && arg1.base == buff.base && arg1.off == buff.off && len(arg1) == got
